@@ -206,3 +206,18 @@ def ascent_labels_pointer_jumping(n, step):
     while not np.array_equal(root[root], root):
         root = root[root]
     return root
+
+
+def ascent_labels_until_labelled(n, step):
+    # the same walk with one loop condition: go on while the current point has no entry yet; a fixed point is
+    # its own successor, so it has its entry (itself) when the walk arrives at it, like an already labelled point
+    root = np.full(n, -1, dtype=int)
+    for i in range(n):
+        path = []
+        current = i
+        while root[current] == -1:
+            path.append(current)
+            root[current] = step(current)
+            current = root[current]
+        root[path] = root[current]
+    return root
